@@ -90,7 +90,7 @@ pub fn gen_params(r: &mut Rng) -> (String, Parameters) {
         for k in 0..6 {
             p.sign_corrections[k] = if r.chance(0.5) { 1 } else { -1 };
             // offsets beyond a full turn now and then: the normalisation loops then need more than one pass
-            if r.chance(0.5) { p.offsets[k] = if r.chance(0.2) { r.range(-3.0 * PI, 3.0 * PI) } else { r.range(-PI, PI) }; }
+            if r.chance(0.5) { p.offsets[k] = if r.chance(0.2) { if r.chance(0.3) { r.range(-5.0 * PI, 5.0 * PI) } else { r.range(-3.0 * PI, 3.0 * PI) } } else { r.range(-PI, PI) }; }
         }
     }
     if kind >= 6 {
